@@ -6,7 +6,7 @@ from hypothesis import strategies as st
 from hypothesis.stateful import initialize, precondition, rule
 
 from .. import cases, gen, oracle
-from ..runner import Skip, Sub, Violation, gcall, log_machine_base, replay_log
+from ..runner import Raised, Skip, Sub, Violation, gcall, log_machine_base, replay_log
 
 PROPERTY = 'C15'
 LEVEL = 'exploration'
@@ -92,6 +92,7 @@ class TrajMachine(LogMachine):
             t = cases.trajectory(coords, c['symbols'], c['lattice']['matrix'], c['time_step'], c['temperature'], c['species_kind'])
             self.pool = [(t, Model(path, c['symbols'], c['lattice']['matrix'], c['time_step'], {'temperature': c['temperature']}))]
             self.sites = c['sites']
+            self.kind = c['species_kind']
             return
         if not self.pool:
             raise Skip()
@@ -184,6 +185,10 @@ class TrajMachine(LogMachine):
                 raise Violation('query-value', f'center_of_mass has {len(c)} frames')
         elif what == 'structure':
             k = op.get('k', 0) % T
+            if op.get('k', 0) % 4 == 1:
+                k = -1  # the last frame, counted from the end
+            elif op.get('k', 0) % 4 == 3:
+                k -= T  # the same frame counted from the end
             s = gcall(lambda: t[k])
             if oracle.circ_diff(np.array(s.frac_coords), m.pos[k]).max() > 1e-9 or [x.symbol for x in s.species] != m.symbols:
                 raise Violation('index-frame', f'trajectory[{k}] differs from frame {k} of the data')
@@ -302,6 +307,53 @@ class TrajMachine(LogMachine):
         if op['equal'] and len({len(p) for p in parts}) != 1:
             raise Violation('split-equal-parts', f'{[len(p) for p in parts]}')
 
+    def op_clone(self, op, i, t, m):
+        """other ways to obtain a trajectory holding the same (or drift-corrected) data"""
+        import copy
+        import pickle
+
+        how = op['how']
+        T = len(m.pos)
+        cum, tie = unwrap(m.pos)
+        if how == 'deepcopy':
+            new, nm = gcall(copy.deepcopy, t), Model(m.pos.copy(), m.symbols, m.matrix, m.dt, m.meta)
+        elif how == 'pickle':
+            new, nm = gcall(lambda: pickle.loads(pickle.dumps(t))), Model(m.pos.copy(), m.symbols, m.matrix, m.dt, m.meta)
+        elif how == 'displacement-ctor':
+            # the constructor's other input form: per-frame displacements (negative ones too) plus the first frame as base positions
+            if tie or T < 1:
+                raise Skip()
+            steps = np.concatenate([cum[:1] * 0, np.diff(cum, axis=0)], axis=0)
+            new = cases.trajectory(steps, m.symbols, m.matrix, m.dt, m.meta.get('temperature', 300.0), self.kind, coords_are_displacement=True, base_positions=m.pos[0] - np.floor(m.pos[0]))
+            nm = Model(m.pos.copy(), m.symbols, m.matrix, m.dt, {'temperature': m.meta.get('temperature', 300.0)})
+            # a displacement-type query before anything asks for positions
+            d = np.array(gcall(new.distances_from_base_position))
+            want = np.linalg.norm(cum @ m.matrix, axis=-1).T
+            if d.shape != want.shape or np.abs(d - want).max() > 1e-9 * max(1.0, want.max()):
+                raise Violation('query-value', 'distances_from_base_position of a trajectory constructed from displacements')
+        else:  # drift-corrected: every atom's step minus the mean step of all atoms, same first frame
+            if tie or T < 1:
+                raise Skip()
+            new = gcall(t.apply_drift_correction)
+            self.flags['disp_switch'] = True
+            steps = np.diff(cum, axis=0)
+            corr = np.concatenate([cum[:1] * 0, np.cumsum(steps - steps.mean(axis=1, keepdims=True), axis=0)], axis=0)
+            d = np.array(gcall(new.distances_from_base_position))  # (the result is handed out in the displacement representation)
+            want = np.linalg.norm(corr @ m.matrix, axis=-1).T
+            if d.shape != want.shape or np.abs(d - want).max() > 1e-9 * max(1.0, want.max()):
+                raise Violation('query-value', 'distances_from_base_position of a drift-corrected trajectory')
+            nm = Model(m.pos[:1] + corr, m.symbols, m.matrix, m.dt, m.meta)
+        agree(new, nm, f'clone by {how}')
+        self.add(new, nm)
+
+    def op_extend_mismatch(self, op, i, t, m):
+        """extending with a trajectory sampled at another time step cannot give 'the corresponding frames' under one time step: the
+        documented outcome is a ValueError that leaves both objects untouched"""
+        other = cases.trajectory(m.pos, m.symbols, m.matrix, m.dt * op['factor'], m.meta.get('temperature', 300.0), self.kind)
+        r = gcall(t.extend, other, allow=(ValueError,))
+        if not isinstance(r, Raised):
+            raise Violation('extend-time-step', f'extend() accepted a trajectory with time step {m.dt * op["factor"]!r} onto one with {m.dt!r}; the result has {len(t)} frames under a single time step {t.time_step!r}')
+
     def op_extend(self, op, i, t, m):
         j = op['j'] % len(self.pool)
         t2, m2 = self.pool[j]
@@ -351,6 +403,14 @@ class TrajMachine(LogMachine):
           step=st.sampled_from([None, 1, 1, 2, 3, -1, -2]))
     def r_slice(self, i, start, stop, step):
         self.step({'op': 'slice', 'i': i, 'start': start, 'stop': stop, 'step': step})
+
+    @rule(i=st.integers(0, 7), how=st.sampled_from(['deepcopy', 'pickle', 'displacement-ctor', 'displacement-ctor', 'drift-corrected', 'drift-corrected']))
+    def r_clone(self, i, how):
+        self.step({'op': 'clone', 'i': i, 'how': how})
+
+    @rule(i=st.integers(0, 7), factor=st.sampled_from([2.0, 0.5, 1000.0]))
+    def r_extend_mismatch(self, i, factor):
+        self.step({'op': 'extend_mismatch', 'i': i, 'factor': factor})
 
     @rule(i=st.integers(0, 7), n=st.integers(0, 5), equal=st.booleans(), keep=st.integers(0, 5))
     def r_split(self, i, n, equal, keep):
